@@ -756,9 +756,11 @@ fn enabled(abs: &Abs, thorough: bool) -> Vec<Ev> {
     if abs.pending < MAX_PENDING_NOTIFY { v.push(Ev::Notify) }
     v.push(Ev::Step);
     for k in CUTS { v.push(Ev::StepCut(k)) }
-    // mid-step updates: every other set (thorough) / the two sets that differ
-    // most from anything else: everything and nothing (quick)
-    let targets: Vec<u8> = if thorough { (0..SETS.len() as u8).filter(|s| *s != abs.cur).collect() }
+    // mid-step updates: target sets are everything / nothing (quick: two of
+    // them) plus the ASPA-replacement and router-key singletons (thorough:
+    // three of them); all 7 x 5 positions would triple the transition count
+    // for no new kind of exchange
+    let targets: Vec<u8> = if thorough { [6u8, 0, 5, 3].into_iter().filter(|s| *s != abs.cur).take(3).collect() }
         else { [6u8, 0, 1].into_iter().filter(|s| *s != abs.cur).take(2).collect() };
     for k in MID_CALLS { for &t in &targets { v.push(Ev::StepMid(k, t)) } }
     v
@@ -1304,7 +1306,7 @@ fn main() {
     }}}
 
     let sp = ctx.space("rtr.histories",
-        "breadth-first over event histories {update(S) [thorough: + update_nodiff(S)] for the 7 other sets of an 8-set family, drop_diffs, restart, wrap, notify, client_step, client_step with the connection dying after 1/2/3 response PDUs, client_step with the source moving to another set (quick: 2 target sets, thorough: all 7) on entry to the k-th source call of the exchange, k = 1..5} from every root (7 initial client states x client initial version 0..2 x proxy limit 0..2 [thorough: + answer-lower proxy where civ > limit] x diff style [thorough: chained with 3 retained diffs, net with 2; quick: chained with 2]), states de-duplicated by canonical key, every transition re-executed on the real Client and Server; oracles judge against the state named in End of Data, never against the source's latest state; timing is judged only when the source was asked for its timing while in that very state (the library reads timing in a separate call, so an update landing between data and timing leaves the clause undefined); non-trivial = transitions whose client step completed (Ok) AND changed the client's state or data (each (state, event) pair is executed once, so they are distinct by construction)");
+        "breadth-first over event histories {update(S) [thorough: + update_nodiff(S)] for the 7 other sets of an 8-set family, drop_diffs, restart, wrap, notify, client_step, client_step with the connection dying after 1/2/3 response PDUs, client_step with the source moving to another set (quick: 2 target sets, thorough: 3) on entry to the k-th source call of the exchange, k = 1..5} from every root (7 initial client states x client initial version 0..2 x proxy limit 0..2 [thorough: + answer-lower proxy where civ > limit] x diff style [thorough: chained with 3 retained diffs, net with 2; quick: chained with 2]), states de-duplicated by canonical key, every transition re-executed on the real Client and Server; oracles judge against the state named in End of Data, never against the source's latest state; timing is judged only when the source was asked for its timing while in that very state (the library reads timing in a separate call, so an update landing between data and timing leaves the clause undefined); non-trivial = transitions whose client step completed (Ok) AND changed the client's state or data (each (state, event) pair is executed once, so they are distinct by construction)");
 
     let start = WallInstant::now();
     let mut st = Stats { transitions: 0, executions: 0, nontrivial: 0, outcomes: BTreeMap::new(),
